@@ -19,6 +19,9 @@ def kws_fn(eng, name):
     if len(c) != 1: raise Inconclusive(f'KinematicsWithShape::{name}: {len(c)} candidates')
     return eng.bodies[c[0]]
 
+def robot_body():
+    return Agg([Opaque('bodypart', 'joint_meshes'), Opaque('bodypart', 'tool'), Opaque('bodypart', 'base'), Opaque('bodypart', 'environment'), Opaque('bodypart', 'safety')], 'collisions::RobotBody')
+
 def run(ck):
     ck.bounds = dict(stack='arbitrary robot (oracle), 3 answers per inverse call', verdicts='arbitrary per answer (oracle)')
     ck.assumptions += ['what collides() answers is C10; what the stack answers is C01-C09']
@@ -34,7 +37,7 @@ def run(ck):
         cn = [n for n in eng.bodies if n.startswith('collisions::<impl at') and n.endswith('::collides') and eng.bodies[n].nargs == 3]
         if len(cn) != 1: raise Inconclusive('RobotBody::collides not found')
         eng.overrides[cn[0]] = collides
-        w = Agg([BoxV([stack]), Opaque('body')], 'kinematics_with_shape::KinematicsWithShape'); rw = eng.tmp_ref(st, 0, w)
+        w = Agg([BoxV([stack]), robot_body()], 'kinematics_with_shape::KinematicsWithShape'); rw = eng.tmp_ref(st, 0, w)
         tcp = free_pose('tcp'); joints = Agg([F(z3.Real(f'q{i}')) for i in range(6)]); prev = Agg([F_NAN()] + [fconst(0)] * 5) if sentinel else Agg([F(z3.Real(f'prev{i}')) for i in range(6)]); j6 = F(z3.Real('j6arg'))
         if meth in ('forward', 'forward_with_joint_poses', 'kinematic_singularity'): args = [rw, eng.tmp_ref(st, 0, joints)]
         elif meth == 'constraints': args = [rw]
@@ -69,15 +72,18 @@ def run(ck):
     for name, nargs in (('collides', 2), ('collision_details', 2), ('near', 3), ('non_colliding_offsets', 4)):
         eng = ck.engine(); install_collections(eng); install_dynkin(eng); st = eng.new_state()
         stack = DynKin('stack'); seen = []
-        def deleg(e, st_, fr, f, a, nm=name): seen.append([e.deref(st_, x) if isinstance(x, RefV) else x for x in a]); return [(st_, Opaque('answer', nm))]
-        cn = [n for n in eng.bodies if n.startswith('collisions::<impl at') and n.endswith('::' + name) and 'RobotBody' in eng.bodies[n].local_ty.get(1, '')]
-        if len(cn) != 1: raise Inconclusive(f'RobotBody::{name} not found')
-        eng.overrides[cn[0]] = deleg
-        w = Agg([BoxV([stack]), Opaque('body')], 'kinematics_with_shape::KinematicsWithShape')
+        def deleg(e, st_, fr, f, a, nm=name): seen.append((nm, [e.deref(st_, x) if isinstance(x, RefV) else x for x in a])); return [(st_, Opaque('answer', nm))]
+        for nm2 in ('collides', 'collision_details', 'near', 'non_colliding_offsets'):
+            cn = [n for n in eng.bodies if n.startswith('collisions::<impl at') and n.endswith('::' + nm2) and 'RobotBody' in eng.bodies[n].local_ty.get(1, '')]
+            if len(cn) != 1: raise Inconclusive(f'RobotBody::{nm2} not found')
+            eng.overrides[cn[0]] = (lambda nm2: lambda e, st_, fr, f, a: deleg(e, st_, fr, f, a, nm2))(nm2)
+        body = robot_body()
+        w = Agg([BoxV([stack]), body], 'kinematics_with_shape::KinematicsWithShape')
         extra = [eng.tmp_ref(st, 0, Opaque('arg', f'a{k}')) for k in range(nargs - 1)]
         res = eng.call_body(st, kws_fn(eng, name), [eng.tmp_ref(st, 0, w)] + extra)
-        ok = len(res) == 1 and len(seen) == 1 and isinstance(res[0][1], Opaque) and res[0][1].kind == 'answer' and any(isinstance(x, DynKin) for x in seen[0]) \
-             and [x.name for x in seen[0] if isinstance(x, Opaque) and x.kind == 'arg'] == [f'a{k}' for k in range(nargs - 1)] and getattr(seen[0][0], 'kind', None) == 'body'
+        ok = len(res) == 1 and len(seen) == 1 and isinstance(res[0][1], Opaque) and res[0][1].kind == 'answer' and any(isinstance(x, DynKin) for x in seen[0][1]) \
+             and [x.name for x in seen[0][1] if isinstance(x, Opaque) and x.kind == 'arg'] == [f'a{k}' for k in range(nargs - 1)] and same(seen[0][1][0], body) \
+             and (seen[0][0] == name or (name == 'collision_details' and seen[0][0] == 'near' and same(seen[0][1][-1], body.items[4])))      # collision_details == near with the body's own safety distances
         ck.decide(f'KinematicsWithShape::{name} = body.{name}(same arguments, the same kinematic stack)', eng, [], z3.BoolVal(not ok), lambda m=None: dict(clause='delegation', method=name)); ck.states += 1
     # constructors
     for ctor in ('new', 'with_safety'):
